@@ -210,6 +210,14 @@ func body(r *sim.Run) {
 		signers = []*world.Key{oldKey}
 	case len(current) >= 2 && s.senderMode != sendAPI && t.Chance(300):
 		signers = current
+	case oldKey != nil && s.senderMode != sendAPI && t.Chance(350):
+		// signed with a retired key and a current one (two X-Matrix headers,
+		// in either order): one valid signature is enough
+		signers = []*world.Key{oldKey, sim.Pick(t, current)}
+		if t.Bool() {
+			signers[0], signers[1] = signers[1], signers[0]
+		}
+		r.Probe("signed_with_retired_and_current_key")
 	default:
 		signers = []*world.Key{sim.Pick(t, current)}
 	}
